@@ -368,6 +368,9 @@ EXTRA_LINKS = {
     # two untagged terms on the same atoms in a .ff link (the later one counts) - must not depend on other files being read
     "dup2": dict(resname=["A", "B", "C", "D"],
                  inter={"dihedrals": [I(["SA", "BB", "+BB", "+SA"], ["9", "0", "1.5", "1"]), I(["SA", "BB", "+BB", "+SA"], ["9", "180", "2.5", "2"])]}),
+    # a link that, next to the bond to the following residue, closes a ring inside its own residue (C: BB-SC2)
+    "intra": dict(resname=None, atoms={"BB": {"resname": "C"}, "SC2": {"resname": "C"}, "+BB": {}},
+                  inter={"bonds": [I(["BB", "+BB"], ["1", "0.46", "460"]), I(["BB", "SC2"], ["1", "0.21", "2100"])]}),
     "sel_type": dict(resname=["A", "B", "C", "D"], atoms={"+BB": {"atype": "P1"}},
                      inter={"angles": [I(["BB", "+BB", "++BB"], ["2", "140", "14"])]}),
 }
